@@ -743,6 +743,8 @@ static void oracle_mutations(int k)
         else if (mut_class == MC_NAN) {
             if (r1 > 1 || r2 > 1) hk_fail("hdiff-status", "hdiff F F' = %d, hdiff F' F = %d after changing %s", r1, r2, desc);
             else if (r1 != r2) hk_fail("hdiff-asymmetric", "hdiff F F' = %d, hdiff F' F = %d after changing %s", r1, r2, desc);
+            else if (r1 != 1 && strcmp(what, "sds-dimscale-element") == 0) /* the scale of a used dimension is not compared at all, whatever its values */
+                hk_fail("hdiff-misses:sds-dimscale-element", "hdiff F F' = %d, hdiff F' F = %d after changing %s", r1, r2, desc);
             else if (r1 != 1) hk_fail("hdiff-nan-difference-not-greater-than-limit", "hdiff F F' = %d, hdiff F' F = %d after changing %s", r1, r2, desc);
             hk_stat("nan_vs_number_change", 1);
         }
